@@ -785,7 +785,14 @@ pub fn gen_small_bodies(files: &BTreeMap<String, syn::File>, out: &mut String) {
     let norm = |t: String| t.split_whitespace().collect::<Vec<_>>().join(" ");
     let mut rows = vec![];
     let stmts_of = |b: &syn::Block| -> Vec<String> { b.stmts.iter().map(|s| esc(norm(s.to_token_stream().to_string()))).collect() };
-    for (fname, owner, func) in [("internal.rs", "ArrayBuilder", "assume_init"), ("internal.rs", "IntrusiveArrayBuilder", "finish"), ("lib.rs", "", "const_transmute")] {
+    for (fname, owner, func) in [
+        ("internal.rs", "ArrayBuilder", "assume_init"),
+        ("internal.rs", "IntrusiveArrayBuilder", "finish"),
+        ("lib.rs", "", "const_transmute"),
+        ("lib.rs", "GenericArray", "from_slice"),
+        ("lib.rs", "GenericArray", "try_from_slice"),
+        ("lib.rs", "GenericArray", "from_mut_slice"),
+    ] {
         let Some(file) = files.get(fname) else { continue };
         let mut found: Vec<Vec<String>> = vec![];
         for it in &file.items {
